@@ -4,6 +4,7 @@ import DnsVerif.Props.C14
 #print axioms DnsVerif.Props.C14.no_race_except_known
 #print axioms DnsVerif.Props.C14.known_unguarded_are_real
 #print axioms DnsVerif.Props.C14.known_unguarded_race
-#print axioms DnsVerif.Props.C14.table_guarded_full_fails
+#print axioms DnsVerif.Props.C14.table_guarded
+#print axioms DnsVerif.Props.C14.table_no_race
 #print axioms DnsVerif.Props.C14.table_covers_fields
 #print axioms DnsVerif.Props.C14.lock_order_acyclic
